@@ -12,7 +12,9 @@ Inductive dop := DTrue | DFloor | DMod.
 Definition mfloordiv (a b : mval) : mval :=
   match a, b with
   | MO (NI x), MO (NI y) => MO (NI (x / y))
-  | MO _, _ | _, MO _ => MO (NF (f64_floordiv (num_to_f64 (as_num a)) (num_to_f64 (as_num b))))
+  | MO _, _ | _, MO _ => match as_num a, as_num b with
+                         | NI x, NI y => MO (NI (x / y))       (* NumPy converts both sides to Python integers *)
+                         | na, nb => MO (NF (f64_floordiv (num_to_f64 na) (num_to_f64 nb))) end
   | MI x, MI y => MI (wrap_i64 (x / y))
   | MU x, MU y => MU (wrap_u64 (x / y))
   | _, _ => MF (f64_floordiv (num_to_f64 (as_num a)) (num_to_f64 (as_num b)))
@@ -20,7 +22,9 @@ Definition mfloordiv (a b : mval) : mval :=
 Definition mmod (a b : mval) : mval :=
   match a, b with
   | MO (NI x), MO (NI y) => MO (NI (x mod y))
-  | MO _, _ | _, MO _ => MO (NF (f64_mod (num_to_f64 (as_num a)) (num_to_f64 (as_num b))))
+  | MO _, _ | _, MO _ => match as_num a, as_num b with
+                         | NI x, NI y => MO (NI (x mod y))
+                         | na, nb => MO (NF (f64_mod (num_to_f64 na) (num_to_f64 nb))) end
   | MI x, MI y => MI (x mod y)
   | MU x, MU y => MU (x mod y)
   | _, _ => MF (f64_mod (num_to_f64 (as_num a)) (num_to_f64 (as_num b)))
@@ -34,11 +38,17 @@ Definition div_raw_elem (d : dop) (fx fy : fmt) (nfr : Z) (cx cy : Z) : outcome 
   match d with
   | DTrue =>      (* (x.val * 2**(n_frac - x.n_frac + y.n_frac)) // y.val *)
       bind (mscale lx (nfr - nf fx + nf fy)) (fun a => Ok (mfloordiv a (load (storage fy) cy)))
-  | DFloor =>     (* ((x.val * 2**(n_frac - x.n_frac)) // (y.val * 2**(n_frac - y.n_frac))) * 2**n_frac *)
-      bind (mscale lx (nfr - nf fx)) (fun a => bind (mscale ly (nfr - nf fy)) (fun b =>
-      mscale (mfloordiv a b) nfr))
-  | DMod =>       (* (x.val * 2**(n_frac - x.n_frac)) % (y.val * 2**(n_frac - y.n_frac)) *)
-      bind (mscale lx (nfr - nf fx)) (fun a => bind (mscale ly (nfr - nf fy)) (fun b => Ok (mmod a b)))
+  | DFloor =>     (* scale_raw(x.val, m - x.n_frac) // scale_raw(y.val, m - y.n_frac), m = max n_frac, then scale_raw(.., n_frac):
+                     the raw values aligned on the finer fraction length, integer quotient, result fraction length *)
+      let m := Z.max (nf fx) (nf fy) in
+      let rc := raw_cast (storage fx) (storage fy) (Z.max (nw fx + m - nf fx) (nw fy + m - nf fy)) in
+      bind (mscale_raw (cast_if rc (load (storage fx) cx)) (m - nf fx)) (fun a =>
+      bind (mscale_raw (cast_if rc (load (storage fy) cy)) (m - nf fy)) (fun b =>
+      mscale_raw (mfloordiv a b) nfr))
+  | DMod =>       (* scale_raw(x.val, n_frac - x.n_frac) % scale_raw(y.val, n_frac - y.n_frac) *)
+      let rc := raw_cast (storage fx) (storage fy) (Z.max (nw fx + nfr - nf fx) (nw fy + nfr - nf fy)) in
+      bind (mscale_raw (cast_if rc (load (storage fx) cx)) (nfr - nf fx)) (fun a =>
+      bind (mscale_raw (cast_if rc (load (storage fy) cy)) (nfr - nf fy)) (fun b => Ok (mmod a b)))
   end.
 
 Definition div_fmt (d : dop) (fx fy : fmt) : fmt :=
